@@ -12,7 +12,6 @@ import (
 	"sort"
 	"strings"
 	"sync"
-	"sync/atomic"
 	"time"
 
 	"golang.org/x/tools/go/ssa"
@@ -405,7 +404,6 @@ func (e *Engine) discharge(tmo int) {
 		budget = 40 * time.Minute
 	}
 	deadline := time.Now().Add(budget)
-	var retries int32
 	for i, o := range e.obs {
 		if o.Triv || o.decided {
 			continue
@@ -429,14 +427,37 @@ func (e *Engine) discharge(tmo int) {
 			}
 			r := runSolvers(o.Script, lim, dir, fmt.Sprintf("ob%05d", i))
 			o.Result, o.Solver, o.Ms, o.Output = r.first, r.solver, r.ms, r.out
-			if o.Expect == "unsat" && o.Result != "unsat" && o.Result != "sat" && atomic.AddInt32(&retries, 1) <= 8 && time.Now().Before(deadline) {
-				// one retry with a longer limit before an obligation is reported as failed for lack of an answer
-				r = runSolvers(o.Script, tmo*3, dir, fmt.Sprintf("ob%05d_retry", i))
-				o.Result, o.Solver, o.Ms, o.Output = r.first, r.solver, o.Ms+r.ms, r.out
-			}
 		}(i, o)
 	}
 	wg.Wait()
+	// rescue pass: an obligation that got no answer (timeout / unknown) while dozens of solver processes competed for
+	// the cores is tried again with the machine to itself - two at a time, three times the limit - before it is
+	// reported as undischarged. A loaded machine must not turn into an alarm.
+	var again []int
+	for i, o := range e.obs {
+		if !o.Triv && !o.decided && o.Expect == "unsat" && o.Result != "unsat" && o.Result != "sat" && o.Result != "error" {
+			again = append(again, i)
+		}
+	}
+	if len(again) > 0 && len(again) <= 400 {
+		sem2 := make(chan struct{}, 2)
+		var wg2 sync.WaitGroup
+		for _, i := range again {
+			o := e.obs[i]
+			if time.Now().After(deadline.Add(time.Duration(tmo*6) * time.Second)) {
+				break
+			}
+			wg2.Add(1)
+			go func(i int, o *Oblig) {
+				defer wg2.Done()
+				sem2 <- struct{}{}
+				defer func() { <-sem2 }()
+				r := runSolvers(o.Script, tmo*3, dir, fmt.Sprintf("ob%05d_retry", i))
+				o.Result, o.Solver, o.Ms, o.Output = r.first, r.solver, o.Ms+r.ms, r.out
+			}(i, o)
+		}
+		wg2.Wait()
+	}
 }
 
 // conjuncts flattens a (possibly named) conjunction into at most max parts.
